@@ -476,6 +476,16 @@ class SummaryExtractor(nodes.NodeVisitor):
                     summary_pieces.append(set_node_attributes(nodes.Text(s), document=summary_doc))
                     char_count += len(s)
 
+            elif isinstance(child, (nodes.footnote_reference, nodes.citation_reference)) or (
+                    isinstance(child, nodes.reference) and 'refid' in child):
+                # A link to a target that lies elsewhere in the docstring: the summary is shown 
+                # without the rest of the docstring (and on other pages), so keep the text only.
+                text = child.astext()
+                if not isinstance(child, nodes.reference):
+                    text = f'[{text}]'
+                summary_pieces.append(set_node_attributes(nodes.Text(text), document=summary_doc))
+                char_count += len(text)
+
             else:
                 summary_pieces.append(set_node_attributes(child.deepcopy(), document=summary_doc))
                 char_count += len(''.join(node2stan.gettext(child)))
